@@ -115,11 +115,12 @@ def wrapper_struct(agent):
 def prelu_config(family):
     """net_config whose hidden and encoder-output activations are PReLU - the one entry of the activation table
     (agilerl/utils/evolvable_networks.get_activation) that owns a learnable parameter - for encoder and head"""
-    head = {"hidden_size": [6], "activation": "PReLU"}
+    head = {"hidden_size": [16], "activation": "PReLU"}       # (Rainbow's head asserts at least 16 nodes)
     if family == "image":
         enc = {"channel_size": [2], "kernel_size": [3], "stride_size": [1], "activation": "PReLU"}
     elif family == "dict":
-        enc = {"latent_dim": 8, "activation": "PReLU"}
+        # the multi-input encoder has no hidden activation of its own: PReLU after the concatenated features
+        enc = {"latent_dim": 8, "output_activation": "PReLU"}
     else:
         enc = {"hidden_size": [6], "activation": "PReLU", "output_activation": "PReLU"}
     return {"encoder_config": enc, "head_config": head}
@@ -514,7 +515,9 @@ class C07(vlib.Driver):
             st["wrapper"] = wrapper_struct(member)
             st["ptrs"] = all_tensor_ptrs(member)
             extra = deep_wrapper_slots(member, {tuple(s_[2]) for s_ in ag["slots"]})
-            ag = dict(ag, slots=list(ag["slots"]) + extra)
+            # tensors inside the user's net_config dictionary (e.g. the sample_input that multi-agent image networks write into it) are
+            # read-only constants of a configuration object that a population shares by construction: not agent state
+            ag = dict(ag, slots=[s_ for s_ in ag["slots"] if not s_[0].startswith("attr.net_config.")] + extra)
             for d in st["nets"].values():
                 # C01 known finding (faithful@dict:{MADDPG,MATD3,IPPO}:arch, frame@dict:*:struct): multi-agent networks built
                 # without an explicit cnn_config share the module-level DefaultCnnConfig object, whose block_type is flipped
